@@ -2,7 +2,8 @@ import Frp.Model.Str
 /-
   Control-protocol framing, as implemented by the vendored module
   github.com/fatedier/golib@v0.5.1/msg/json (pack.go, process.go, msg.go), which frp uses through
-  pkg/msg/ctl.go (`msg.ReadMsg`, `msg.ReadMsgInto`, `msg.WriteMsg`).
+  pkg/msg/ctl.go (`msg.ReadMsg`, `msg.ReadMsgInto`, `msg.WriteMsg`); `ReadMsg` adds one check of its own
+  (see `readMsg` below).
 
   Bytes are `Nat`s (< 256 for real inputs; the theorems that need it say so), byte strings are
   `Frp.Str = List Nat`.  The JSON text of a body (encoding/json) is NOT modelled: it is trusted.
@@ -100,16 +101,17 @@ inductive Msg
   | msg (structName : String)   -- `*T` for the registered struct `T`, err == nil
   | nilMsg                      -- msg == nil AND err == nil
   | errFrame (e : Err)
-  | errJson                     -- error from json.Unmarshal
+  | errJson                     -- body-level error: from json.Unmarshal, or pkg/msg `ErrInvalidBody`
   deriving DecidableEq, Repr
 
-/-- process.go `ReadMsg` = `readMsg` then pack.go `unpack(typeByte, buffer, nil)`:
+/-- golib process.go `ReadMsg` = `readMsg` then pack.go `unpack(typeByte, buffer, nil)`:
     `msg = reflect.New(t).Interface(); err = json.Unmarshal(buffer, &msg)`.
     `jsonOk` is encoding/json's verdict on the body for that struct (trusted, supplied by the run).
     `&msg` is a pointer to an *interface* holding `*T`: for the JSON literal `null` encoding/json
     (decode.go `indirect` with `decodingNull`) stops at the interface and sets it to nil, so the
-    caller receives `(nil, nil)` — no message and no error.  Mirrored as it is. -/
-def readMsg (max : Nat) (known : Nat → Bool) (structOf : Nat → Option String)
+    caller receives `(nil, nil)` — no message and no error.  Mirrored as it is (the vendored
+    dependency is unchanged). -/
+def readMsgGolib (max : Nat) (known : Nat → Bool) (structOf : Nat → Option String)
     (jsonOk : Bool) (inp : Str) : Msg × Nat × Nat :=
   let o := decodeFull max known inp
   match o.res with
@@ -120,6 +122,18 @@ def readMsg (max : Nat) (known : Nat → Bool) (structOf : Nat → Option String
     else match structOf t with
       | some s => (.msg s, o.consumed, o.bodyAlloc)
       | none => (.errFrame .msgType, o.consumed, o.bodyAlloc)   -- unreachable when known = structOf.isSome
+
+/-- frp pkg/msg/ctl.go `ReadMsg` (after the repair of finding C17-null-body):
+    ```
+    msg, err = msgCtl.ReadMsg(c)
+    if err == nil && msg == nil { err = ErrInvalidBody }
+    ```
+    "no message and no error" is turned into a body-level error; everything else passes through. -/
+def readMsg (max : Nat) (known : Nat → Bool) (structOf : Nat → Option String)
+    (jsonOk : Bool) (inp : Str) : Msg × Nat × Nat :=
+  match readMsgGolib max known structOf jsonOk inp with
+  | (.nilMsg, c, a) => (.errJson, c, a)
+  | r => r
 
 end Frame
 end Frp
